@@ -37,6 +37,7 @@ bb6a35c C08 C08.position
 9a87f9b+c15ed5e C08 C08.reset
 8c82aca C10 C10.direction
 1da8b63 C09 C09.bounds
+cb78194 C12 C12.mergeconv
 7f9b906 C09 C09.bounds
 da81c69 C05 C05.order
 4a537a7 C05 C05.sorting
